@@ -937,7 +937,8 @@ impl Engine for Conc {
             }
             tasks.push(script);
         }
-        let tiny = tasks.len() <= 3 && tasks.iter().map(|t| t.len()).sum::<usize>() <= 3;
+        // (a hub scenario is short in calls but not in lock points: never enumerated)
+        let tiny = !template3 && tasks.len() <= 3 && tasks.iter().map(|t| t.len()).sum::<usize>() <= 3;
         let kind = match rng.below(10) {
             _ if tiny && rng.chance(1, if tier == Tier::Quick { 150 } else { 60 }) => PolicyKind::Enumerate,
             _ if template3 => if rng.coin() { PolicyKind::Uniform } else { PolicyKind::Sticky { num: 50 } },
